@@ -36,6 +36,7 @@ import ZoektModel.C01.LineLemmas
 import ZoektModel.C01.BTreeLemmas
 import ZoektModel.C01.FullLemmas
 import ZoektModel.C01.WordLemmas
+import ZoektModel.C01.SelectLemmas
 namespace ZoektModel.C01
 
 /-- **one `evalMatchTree` call** on a consistent tree: the tree stays consistent, its plain value is unchanged, a decided
@@ -538,6 +539,23 @@ example : wordMatches [120, 102, 111, 111, 45, 102, 111, 111, 45, 102, 111, 111]
   decide
 example : reWordAt [97, 45, 102, 111, 111, 32, 98] [45, 102, 111, 111] 1 = true ∧
     wordAt [97, 45, 102, 111, 111, 32, 98] [45, 102, 111, 111] 1 = false := by decide
+
+/-- **`selection_consistent_thm`** (L5): for every pattern of at least three runes and ARBITRARY frequencies (one per
+    trigram, in sorted-trigram order as `iterateNgrams` computes them), `findSelectiveNgrams` (two lowest frequencies,
+    then the overlap-reducing shift through `indexMap`) returns two trigram positions `first ≤ last` of the pattern —
+    exactly the hypotheses `i ≤ j`, `j + 3 ≤ |pattern|` of `docIter_candidates_complete` / `substr_cs_leaf_ok`, so the
+    frequency heuristic provably cannot affect results -/
+theorem selection_consistent_thm (pat freqs : List Nat) (hlen : 3 ≤ pat.length) (hf : freqs.length = pat.length - 2) :
+    (findSelective (sortedPositions pat) (mkIndexMap (sortedPositions pat)) freqs).1 ≤
+      (findSelective (sortedPositions pat) (mkIndexMap (sortedPositions pat)) freqs).2 ∧
+    (findSelective (sortedPositions pat) (mkIndexMap (sortedPositions pat)) freqs).2 + 3 ≤ pat.length :=
+  selection_consistent pat freqs hlen hf
+
+/-! non-vacuity: pattern "abcabd": sorted trigrams abc(0) abd(3) bca(1) cab(2); frequencies 9,9,1,2 select bca and cab,
+    which overlap, so the shift moves them apart to positions 0 and 3 -/
+example : sortedPositions [97, 98, 99, 97, 98, 100] = [0, 3, 1, 2] := by decide
+example : findSelective (sortedPositions [97, 98, 99, 97, 98, 100]) (mkIndexMap (sortedPositions [97, 98, 99, 97, 98, 100]))
+    [9, 9, 1, 2] = (0, 3) := by decide
 
 /-! non-vacuity: a shard of 5 documents (document 3 dead), tree `and[doc-predicate, not(regexp verdicts), or[branch, none]]` -/
 def exCtx : Ctx := ⟨[[97], [98], [99], [100], [101]], [[], [], [], [], []], [true, true, true, false, true]⟩
